@@ -202,6 +202,15 @@ Theorem C03_convert_packet_send_phy_refuted :
   /\ send_to_packet codec_id (SPhy (PSendRaw {| psr_iq := [] |})) = Raise AttributeError.
 Proof. exact phy_send_raw_refuted. Qed.
 
+(** * Sequences of conversions: whatever else is converted before or after, the i-th result is the
+      conversion of the i-th input (conversions are functions of their own input; the implementation's
+      kept and re-read results are compared with [seq_to] / [seq_from] / [seq_convert] on every run) *)
+Theorem C03_sequence_independent : forall codec k kw,
+  (forall ms i m, nth_error ms i = Some m -> nth_error (seq_to codec k ms) i = Some (to_packet_any codec k m))
+  /\ (forall ps i p, nth_error ps i = Some p -> nth_error (seq_from codec k kw ps) i = Some (from_packet_any codec k kw p))
+  /\ (forall ps i p, nth_error ps i = Some p -> nth_error (seq_convert ps) i = Some (hub_convert p)).
+Proof. exact seq_independent. Qed.
+
 (** * Non-vacuity: the premises are met by a concrete BLE raw notification (all optional items present,
       RSSI -40, timestamp 2^32-1, relative timestamp 2^63) whose packet is well-formed too *)
 Example C03_nonvacuous :
